@@ -65,7 +65,8 @@ def all_nodes(buckets: list) -> list:
     return [n for b in buckets for n in b[3]]
 
 
-def closest(buckets: list, target: int, k: int) -> list:
-    """Identifiers of the k live nodes with the smallest XOR distance to target, nearest first (brute force)."""
-    live = [n[1] for n in all_nodes(buckets) if not is_bad(n[3])]
+def closest(buckets: list, target: int, k: int, exclude: int | None = None) -> list:
+    """Identifiers of the k live nodes (other than ``exclude``) with the smallest XOR distance to target, nearest
+    first (brute force)."""
+    live = [n[1] for n in all_nodes(buckets) if not is_bad(n[3]) and n[1] != exclude]
     return sorted(live, key=lambda i: i ^ target)[:k]
